@@ -1,12 +1,62 @@
 """C13 - recovery and cancel leave at most the resumable session pending.  Proof: props/C13.v.
 Correspondence + oracle: the ring closure (exclusive / none-clears / cancel-clears / sound / complete / protected / idempotent in every reachable state)."""
-from . import core, c05
+import random
+from . import core, c05, session
+
+
+def fault_part(chk):
+    """a device operation of try_recover fails once (the flash works again afterwards): whatever the failed call answers, the
+       session must still be there - the next call returns it and its two slots still read in progress"""
+    rnd = random.Random(chk.seed + 13)
+    bases = []
+    while len(bases) < (8 if chk.quick() else 80):
+        b = session.build_delivery(rnd, small=True, with_history=rnd.random() < 0.5)
+        if b.meta["cap"] >= 1 and len(b.meta["seq"]) >= 2:
+            bases.append(b)
+    refs = []
+    for b in bases:
+        me = b.meta
+        cut = me["start_op"] + 1 + rnd.randint(1, max(1, len(me["seg_ops"]) - 1))
+        s = session.Scn(b.ns, b.slot, b.blk)
+        s.ops = list(b.ops[:cut]) + ["drop"]
+        s.meta = {"rec": s.add("recover")}; s.add("hdrs")
+        refs.append(s)
+    lines, impl, outs = session.run(chk, refs, stream="recover-fault-ref")
+    cases = []
+    for s, out in zip(refs, outs):
+        if len(out) != len(s.ops) or not out[s.meta["rec"]][0].startswith("some"):
+            continue
+        nops = out[s.meta["rec"]].nops
+        for k in (range(nops) if nops <= 12 or not chk.quick() else sorted(rnd.sample(range(nops), 12))):
+            t = session.Scn(s.ns, s.slot, s.blk)
+            t.ops = list(s.ops[:s.meta["rec"]]) + ["fail %d" % k]
+            t.meta = {"k": k, "r1": t.add("recover"), "h1": t.add("hdrs")}; t.add("drop")
+            t.meta["r2"] = t.add("recover"); t.meta["h2"] = t.add("hdrs")
+            t.meta["ref_hdrs"] = out[s.meta["rec"] + 1][0]
+            cases.append(t)
+    clines, cimpl, couts = session.run(chk, cases, stream="recover-fault")
+    nt = []
+    for t, l, raw, out in zip(cases, clines, cimpl, couts):
+        if len(out) != len(t.ops):
+            chk.failures.append(core.Failure("harness produced no / truncated result", "session", "matrix", l, raw, key="crash")); break
+        r1, r2 = out[t.meta["r1"]][0], out[t.meta["r2"]][0]
+        if r1 == "panic" or r2 == "panic":
+            chk.failures.append(core.Failure("try_recover panics when device operation %d fails once" % t.meta["k"], "session", "matrix", l, raw[:2000], key="c13"))
+        elif not r2.startswith("some"):
+            chk.failures.append(core.Failure("device operation %d of try_recover failed once (answer: %s); the next try_recover returns %s although the update was started and neither completed nor cancelled" % (t.meta["k"], r1, r2), "session", "matrix", l, raw[:2000], key="c13"))
+        elif out[t.meta["h2"]][0] != t.meta["ref_hdrs"]:
+            chk.failures.append(core.Failure("device operation %d of try_recover failed once: the headers after the next try_recover differ from those after a fault-free one" % t.meta["k"], "session", "matrix", l, raw[:2000], key="c13"))
+        nt.append(l)
+        if chk.too_many(): break
+    chk.note_cases("recover-fault", clines, nt, sample_n=1, dist={"cases": len(clines)})
+
 
 def run(chk):
     chk.prove()
     c05.closure_part(chk, ("c13",))
+    fault_part(chk)
     return chk.finish(level="proof",
-        rule="ring-closure (see C05): from every reachable state recover, recover twice, recover+complete, cancel, cancel twice and the crash prefixes of cancel are executed on the real SlotManager; "
+        rule="recover-fault: partial deliveries, one device operation of try_recover failing once (every operation; sampled when more than 12), then try_recover again: the session is returned and the headers equal those after a fault-free recovery; ring-closure (see C05): from every reachable state recover, recover twice, recover+complete, cancel, cancel twice and the crash prefixes of cancel are executed on the real SlotManager; "
              "the returned session's slots are observed through where its fragment and final marks land; non-trivial/distinct = distinct states",
         trusted=core.TRUSTED_COMMON + ["C13: crash prefixes of recovery's remediation are outside the property's quantifier (DESIGN.md section 8, second observation)",
                                         "geometries with max_l = 0 write an unparseable parity header (DESIGN.md section 8); the closure uses max_l >= 1"])
